@@ -7,7 +7,7 @@ upper-case names. Nothing here filters by what LALRPOP does with a grammar.
 import itertools
 import random
 
-TS = ["a", "b", "c", "d", "e", "f"]
+TS = ["a", "b", "c", "d", "e", "f", "g", "h"]
 NTS = ["S", "A", "B", "C", "D", "E"]
 
 
@@ -145,6 +145,13 @@ def lr1_not_lalr(rng, idx):
                 prods += [("S", [b, "C", u1]), ("S", [b, "D", u2])]
         if rng.random() < 0.6:     # a shorter path to the split item
             prods += [("S", ["A", f1]), ("S", ["B", f2])]
+        if rng.random() < 0.4:
+            # a third item reducing the lane prefix whose follow, in ONE context only, is the token the other
+            # items shift next: a genuine conflict that exists only in the split-off copy of the lane state
+            g_, h_ = TS[6], TS[7]
+            bad = rng.random() < 0.6
+            prods += [("S", [a, "Z", g_]), ("S", [b, "Z", TS[5] if bad else h_]), ("Z", lane)]
+            nts.append("Z")
         if rng.random() < 0.3:
             rng.shuffle(prods)
         used = [t for t in TS if any(t in r_ for _, r_ in prods)]
@@ -290,7 +297,7 @@ def render_plain(g, algo_attr="", codegen_attr=""):
         vis = "pub " if nt in g["starts"] else ""
         body = []
         for p in alts:
-            syms = " ".join(('"%s"' % s) if s in g["ts"] else s for s in p["rhs"])
+            syms = " ".join("!" if s == "error" else ('"%s"' % s) if s in g["ts"] else s for s in p["rhs"])
             body.append("    %s => ()," % syms)
         lines.append("%s%s: () = {\n%s\n};" % (vis, nt, "\n".join(body)))
     return "\n".join(lines) + "\n"
